@@ -1,7 +1,7 @@
 (** C29 — networks deliver every message exactly once with metadata intact.
     Property theorems only. *)
 From Coq Require Import Permutation.
-From Akita Require Import Lib.Base C30.Model C30.ProofsMesh C31.Model C29.Model C29.ProofsAcc C29.ProofsNet C29.ProofsMeshRank.
+From Akita Require Import Lib.Base C30.Model C30.ProofsMesh C31.Model C29.Model C29.ProofsAcc C29.ProofsNet C29.ProofsMeshRank C29.ProofsMeshNet.
 
 (** Soundness of the acceptor that every real run is checked against: a trace of
     device-port events that it accepts satisfies, at every position, the
@@ -111,6 +111,68 @@ Theorem c29_mesh_channel_ranking : forall size c dst c',
   (0 <= mesh_rank size c < mesh_rank size c')%Z.
 Proof. exact mesh_channel_ranking. Qed.
 Print Assumptions c29_mesh_channel_ranking.
+
+(** * The mesh, concretely
+
+    The abstract network instantiated with an [sx * sy * sz] grid (2D: [sz = 1]):
+    one bounded channel per output port of every switch, numbered by its position
+    in the enumeration of all (coordinate, direction) pairs; a packet on a port
+    moves to the port that C30's model of meshRoutingTable.FindPort selects at the
+    neighbouring switch, and is handed to the device from the local port.
+    [mesh_initial size pkts] puts every message [(id, source tile, destination
+    tile)] on the port its source switch selects.
+
+    For EVERY grid size, EVERY positive channel capacities, EVERY set of messages
+    between tiles of the grid and EVERY arbitration (schedule of moves) [cs]:
+    nothing is lost or duplicated; the execution is finite (at most [measure]
+    moves: total remaining Manhattan distance + 1 per message); wherever it
+    stands, some move is enabled while a message is in flight (no deadlock, by
+    [c29_mesh_channel_ranking]); and when no move is enabled, every message has
+    been handed to its destination device exactly once. *)
+Theorem c29_mesh_delivery_progress : forall size cap pkts,
+  (forall c, 1 <= cap c) ->
+  (forall p, In p pkts -> in_box size (snd (fst p)) /\ in_box size (snd p)) ->
+  let st0 := mesh_initial size pkts in
+  let msgs := map (fun p => (fst (fst p), node_no size (snd p))) pkts in
+  (forall cs st', run (mnext size) cap st0 cs = Some st' ->
+     Permutation (all_pkts st') msgs /\
+     length cs <= measure (mpot size) st0 /\
+     (in_flight st' <> [] -> exists c st'', move (mnext size) cap st' c = Some st'') /\
+     ((forall c, move (mnext size) cap st' c = None) ->
+      in_flight st' = [] /\ Permutation (n_done st') msgs)) /\
+  (exists cs st', run (mnext size) cap st0 cs = Some st' /\ in_flight st' = [] /\ Permutation (n_done st') msgs).
+Proof.
+  intros size cap pkts Hcap Hin st0 msgs.
+  pose proof (mesh_initial_wf size pkts Hin) as Hw. fold st0 in Hw.
+  pose proof (mesh_initial_pkts size pkts Hin) as Hp. fold st0 in Hp. fold msgs in Hp.
+  destruct (mesh_delivery_progress size cap Hcap st0 Hw) as [_ [Hrun Hex]].
+  split.
+  - intros cs st' Hr. destruct (Hrun cs st' Hr) as [Hc [Hb Hmax]].
+    assert (Hw' : wf (mesh_nchan size) (mvalid size) st').
+    { exact (run_wf (mnext size) cap (mesh_nchan size) (mvalid size) (mpot size) (mrank size) Hcap (mnext_ok size) cs st0 st' Hw Hr). }
+    split; [etransitivity; [apply Permutation_sym; exact Hc|exact Hp]|].
+    split; [lia|]. split.
+    + intro Hne. exact (proj1 (mesh_delivery_progress size cap Hcap st' Hw') Hne).
+    + intro Hs. destruct (Hmax Hs) as [H1 H2]. split; [exact H1|]. etransitivity; [exact H2|exact Hp].
+  - destruct Hex as [cs [st' [Hr [_ [H1 H2]]]]]. exists cs, st'. split; [exact Hr|]. split; [exact H1|].
+    etransitivity; [exact H2|exact Hp].
+Qed.
+Print Assumptions c29_mesh_delivery_progress.
+
+(** Non-vacuity: a 2x2 mesh with one-slot channels and four messages (two
+    crossing the grid in opposite directions, two sharing a source, one local);
+    the first-enabled-port scheduler delivers all of them and then nothing can move. *)
+Example c29_mesh_nonvacuous :
+  let size := (2, 2, 1)%Z in
+  let pkts := [(1%N, (0,0,0)%Z, (1,1,0)%Z); (2%N, (1,1,0)%Z, (0,0,0)%Z);
+               (3%N, (0,0,0)%Z, (1,1,0)%Z); (4%N, (1,0,0)%Z, (1,0,0)%Z)] in
+  mesh_nchan size = 28 /\
+  move (mnext size) (fun _ => 1) (mesh_initial size pkts) 0 = None /\
+  let '(cs, st) := greedy (mnext size) (fun _ => 1) 100 (mesh_initial size pkts) in
+  cs = [3; 12; 3; 20; 23; 18; 6; 27; 12; 27] /\
+  run (mnext size) (fun _ => 1) (mesh_initial size pkts) cs = Some st /\
+  n_done st = [(4%N, 2); (2%N, 0); (1%N, 3); (3%N, 3)] /\ concat (n_chan st) = [].
+Proof. vm_compute. repeat split; reflexivity. Qed.
 
 (** Non-vacuity of the abstract theorems: a 3-channel line 0 -> 1 -> 2 -> device
     with capacity 1 each and two packets; the greedy schedule delivers both. *)
